@@ -138,6 +138,11 @@ fixed("FX16-functor-name-of-number", ["C16"], "72272b2", "functor(3, N, A) answe
 fixed("FX17-length-unifyerror", ["C16", "C27"], "fd89bc6", "length(L, -1) raised the internal engine_unify.UnifyError", "?- length(L, -1).")
 fixed("FX18-eq-result-not-resolved", ["C14"], "a2825b1", "X = Y returned bindings that are not the mgu: a variable bound by a later argument stayed unbound in an earlier one", "r(A,B,C) :- g(f(f(A)),f(B)) = g(C,A).  gave C = f(f(f(_other)))")
 fixed("FX20-semiring-is-one", ["C12"], "9f3be78", "Semiring.is_one compared with the bound method: is_one(one()) False, default normalize(a, one()) raised OperationNotSupported", "class Mini(Semiring) with one()=1.0: Mini().is_one(1.0) is False")
+known("KF20-mpe-semiring-mode", ["C20"],
+      "mpe --use-semiring maximises only over the choices that occur in the ground program of the evidence, prints only query atoms that are plain facts ('compound queries are not supported', AD heads are dropped), reports the weight of that partial assignment, and does not notice unsatisfiable evidence; the MaxSAT mode on the same programs is correct",
+      "0.9::g. 0.3::c; 0.1::b. q :- g. q :- \\+b. query(g). query(c). query(b). evidence(g).  --use-semiring prints probability 0.9 and no atoms; MaxSAT mode prints g, \\+c, \\+b, 0.54",
+      match_any=[{"clause": c, "mode": "semiring"} for c in ["reported-probability", "answered-unsatisfiable-evidence", "assignment-violates-evidence", "not-most-probable", "reported-unsatisfiable"]])
+fixed("FX21-mpe-maxsat-false-evidence", ["C20"], "cfac4cc", "MaxSAT MPE printed an assignment and a probability for a model whose evidence is deterministically false", "0.2::c. q :- \\+c. q :- c. query(c). evidence(q, false).")
 fixed("FX1-break-cycles-true-child", ["C01", "C09"], "29bdee9",
       "AssertionError in LogicFormula.get_node(0) from _break_cycles when a disjunction below an evidence node contains the TRUE node",
       "0.1::h(c1). d(c1). d(c2). p(X) :- d(X), r(c1). p(Y) :- d(Y). r(X) :- p(X). r(Y) :- d(Y), h(X). query(p(c1)). evidence(r(c1)).")
